@@ -264,6 +264,7 @@ def run(chk):
     fs = src.func("eko.runner.managed.solve")
     n_loops = 0
     n_op_stores = [0]
+    STORES = ("operators", "parts", "parts_matching")
 
     def loads_then_stores(node, assigned, tnames, body_assigned, carried):
         """definite-assignment walk in statement order: a name assigned somewhere in the loop body and read on a path where this
@@ -358,12 +359,12 @@ def run(chk):
                 if isinstance(x, ast.Call) and isinstance(x.func, ast.Attribute) and x.func.attr in ("approx", "operator", "items", "__getitem__", "get"):
                     out.append(ast.unparse(x))
                 elif isinstance(x, ast.Subscript) and isinstance(x.ctx, ast.Load) and (
-                        (isinstance(x.value, ast.Attribute) and x.value.attr == "operators") or (isinstance(x.value, ast.Name) and x.value.id == "eko")):
+                        (isinstance(x.value, ast.Attribute) and x.value.attr in STORES) or (isinstance(x.value, ast.Name) and x.value.id == "eko")):
                     out.append(ast.unparse(x))
             return out
 
         for x in ast.walk(lp):
-            if isinstance(x, ast.Assign) and any(isinstance(t, ast.Subscript) and isinstance(t.value, ast.Attribute) and t.value.attr == "operators"
+            if isinstance(x, ast.Assign) and any(isinstance(t, ast.Subscript) and isinstance(t.value, ast.Attribute) and t.value.attr in STORES
                                                  for t in x.targets):
                 n_op_stores[0] += 1
                 seen, todo, reads = set(), [x.value], []
@@ -375,11 +376,11 @@ def run(chk):
                             seen.add(nm.id)
                             todo += defs[nm.id]
                 chk.decide(not reads, "stored-operator-derives-from-the-parts-only", fs.qname,
-                           f"`{stmt_text(x)}`: the operator stored for a target is built from {sorted(set(reads))}, i.e. from operators already in "
-                           f"the store (those of the other targets of the run): the result for a target then depends on which targets are "
-                           f"computed with it and in which order", where=f"{fs.module.relpath}:{x.lineno}", instance=stmt_text(x),
+                           f"`{stmt_text(x)}`: what is stored (a part, or the operator of a target) is built from {sorted(set(reads))}, i.e. from "
+                           f"what is already in the store - things computed for the other segments / targets of the run: the result then depends "
+                           f"on which targets are computed together and in which order (a part is computed from its own recipe, an operator from its own parts)", where=f"{fs.module.relpath}:{x.lineno}", instance=stmt_text(x),
                            how="def-use closure of the stored value in the target loop")
-    chk.floor("operator stores in the target loop", n_op_stores[0], 1)
+    chk.floor("stores into the inventories in the loops of solve", n_op_stores[0], 3)
     chk.floor("runner loops", n_loops, 3)
     fel = src.func("eko.runner.recipes._elements")
     free = {n.id for n in E.own_nodes(fel.node) if isinstance(n, ast.Name) and isinstance(n.ctx, ast.Load)} - E.local_names(fel)
